@@ -169,6 +169,21 @@ class FakeFS(Model):
         open_._pyeval_model = True
         self.open = open_
 
+    def os(self, **extra):
+        """the os stand-in whose file tests and removals act on this file system"""
+        fs = self
+
+        def remove(path):
+            if path not in fs.files:
+                raise FileNotFoundError(2, 'No such file or directory', path)
+            del fs.files[path]
+            fs.removed.append(path)
+        fs.removed = getattr(fs, 'removed', [])
+        dirs = lambda: {p_.rsplit('/', 1)[0] for p_ in fs.files}
+        return pure_os(name='posix', remove=remove, unlink=remove,
+                       path_exists=lambda q: q in fs.files or q.rstrip('/') in dirs(), path_isfile=lambda q: q in fs.files,
+                       path_isdir=lambda q: q.rstrip('/') in dirs() and q not in fs.files, **extra)
+
 
 def pure_sys():
     """A stand-in for the sys module: just names for the standard streams (print(..., file=sys.stderr) in evaluated code)."""
@@ -260,7 +275,7 @@ class Interp:
 
     def stmt(self, s, env, mod):
         self.steps += 1
-        if self.steps > MAX_STEPS:
+        if self.steps > getattr(self, 'max_steps', MAX_STEPS):
             raise Unsupported('evaluation budget exceeded')
         if isinstance(s, ast.Expr):
             if isinstance(s.value, ast.Constant):
@@ -416,7 +431,7 @@ class Interp:
     # -------------------------------------------------------- expressions
     def expr(self, e, env, mod):
         self.steps += 1
-        if self.steps > MAX_STEPS:
+        if self.steps > getattr(self, 'max_steps', MAX_STEPS):
             raise Unsupported('evaluation budget exceeded')
         if isinstance(e, ast.Constant):
             return e.value
